@@ -77,6 +77,9 @@ type Scenario struct {
 	Run                   func(e *Exec) *Outcome
 	// Params is recorded in replay files.
 	Params any
+	// Whole makes one worker explore the whole scenario (better happens-before pruning than
+	// sharding its subtrees over all workers); scenarios are dealt round-robin.
+	Whole bool
 	// MaxExec caps the executions of this scenario per worker (0 = none); hitting it is reported.
 	MaxExec int64
 }
@@ -112,8 +115,18 @@ func RunAll(r *core.Run, scenarios []Scenario, workers int) {
 	if r.IsWorker() {
 		shard, nsh = r.Worker, r.NWorkers
 	}
+	wholeIdx := 0
 	for _, sc := range scenarios {
 		sc := sc
+		shard, nsh := shard, nsh
+		if sc.Whole && nsh > 1 {
+			mine := wholeIdx%nsh == shard
+			wholeIdx++
+			if !mine {
+				continue
+			}
+			shard, nsh = 0, 1
+		}
 		bounds, prune := sc.Bounds, sc.PruneQuick
 		if !r.Quick() {
 			bounds, prune = sc.Deep, sc.PruneDeep
